@@ -28,12 +28,13 @@ from snaxc.util.snax_memory import SnaxMemory
 
 ID = "C11"
 RULE = (
-    "(a) size_formula: 1-2 memref.alloc ops with element type i8/i16/i32/i64/f32, alignment absent/1/2/8/64/256/4096, memory space L1 "
-    "(rarely L3/none), and either no layout (rank 1-4, static and dynamic dims) or a tiled-strided layout from C10's generators "
+    "(a) size_formula: 1-2 memref.alloc ops with element type i8/i16/i32/i64/f32 (rarely i1/f16/f64), alignment absent/1/2/8/64/256/4096, memory space L1 "
+    "(rarely L3/none), and either no layout (rank 0-4, static and dynamic dims) or a tiled-strided layout from C10's generators "
     "(one-to-one with gaps, arbitrary with repeated steps and unit bounds, offsets, depth <= 3, rank <= 4, <= 4096 elements; dynamic "
     "family with run-time outer bounds 1..6); dynamic sizes reach the alloc as test.op results, constants, memref.dim of an argument or "
     "(rarely) block arguments. memref-to-snax is applied and the function is executed; the value of the snax.alloc size operand must be "
-    ">= (max over all indices of the reference address + 1) * element size. Non-trivial: the layout has a gap, an offset or is dynamic. "
+    ">= (max over all indices of the reference address + 1) * element size; all static layouts of rank <= 2, depth <= 2, bounds <= 2, "
+    "steps <= 3 (thorough: bounds <= 3, steps <= 4) are enumerated in addition. Non-trivial: the layout has a gap, an offset or is dynamic. "
     "(b) placement: one function with 3-15 top-level statements: snax.alloc (constant size incl. exact-fill/over-fill of the memory, "
     "alignment from {1,8,64,256} mostly, also 3/10/14/0/absent, memory L1 or Test) followed by the unrealized cast memref-to-snax emits, "
     "views (memref.subview, snax.layout_cast, memref.memory_space_cast, memref->memref unrealized casts, chains), opaque test.op uses at "
@@ -346,7 +347,6 @@ def prop_place(r):
     # ---- what static mode must do with alignment 0 / absent, and when it must refuse
     zero_al = [b["k"] for b in bufs if not b["align"]]
     exp_kind, exp_val = built.static_expect
-    expect_zero_div = (mode == "static" and zero_al and (exp_kind == "ok" or zero_al[0] <= exp_val))
 
     _REC.clear()
     raised_full = None
@@ -570,8 +570,12 @@ def prop_place(r):
         cls.append("align:0-or-absent")
     if aligns & {3, 10, 14}:
         cls.append("align:non-power-of-two")
-    if any(b["align"] and b["align"] > 1 and (addr[b["k"]] - b["size"]) % b["align"] for b in bufs):
-        cls.append("align:padding-needed")
+    for mname in mems:
+        prev_end = None
+        for a0, sz in sorted((addr[b["k"]], b["size"]) for b in bufs if b["mem"] == mname):
+            if prev_end is not None and a0 > prev_end:
+                cls.append("align:gap-between-neighbours")
+            prev_end = max(prev_end or 0, a0 + sz)
     nontrivial = bool(pairs) and (through_view or nested_last or "use:through-view" in built.features and "use:nested" in built.features)
     return Info(nontrivial=nontrivial, classes=tuple(cls), known=known,
                 sample=dict(before=text_before, placement=placement))
@@ -579,8 +583,21 @@ def prop_place(r):
 
 # ================================================================================================
 
+
+def exh_size(tier):
+    """Every static layout of rank <= 2, tile depth <= 2 with bounds <= 2 and steps <= 3 (quick: 1 806 layouts) / bounds <= 3 and
+    steps <= 4 (thorough: 26 220 layouts); element type and offset cycle with the index."""
+    small = G.enumerate_small(2, 2, 3, 4) if tier == "thorough" else G.enumerate_small(2, 2, 2, 3)
+    elts = ["i8", "i32", "i16", "i64", "f32"]
+    for i, dims in enumerate(small):
+        lay = dict(dims=dims, offset=(0, 3, 0, 1)[i % 4])
+        yield dict(allocs=[dict(elt=elts[i % 5], align=(None, 64)[i % 2], space="L1", src=["testop"] * 4, kind="tsl", fam="enumerated",
+                                layout=lay, rt=[dim[0][1] for dim in dims])])
+
+
 SUBS = [
-    Sub("size_formula", GC.size_case, prop_size, budget=dict(quick=5000, thorough=100000), floor=dict(quick=100, thorough=2000),
+    Sub("size_formula", GC.size_case, prop_size, budget=dict(quick=5000, thorough=100000), exhaustive=exh_size,
+        floor=dict(quick=100, thorough=2000),
         nontrivial_rule="the layout has a gap, an offset, or is dynamic (dynamic shape for the no-layout case)"),
     Sub("placement", GC.place_case, prop_place, budget=dict(quick=4000, thorough=100000), floor=dict(quick=100, thorough=2000),
         nontrivial_rule="two buffers of one memory have intersecting true lifetimes and some buffer's last use is through a view or "
